@@ -83,11 +83,14 @@ def run(ctx):
                 if v is None:
                     ctx.refute("C16.cat", construct, loc, f"{f.name} is not concatenated", disc=f.name)
                     continue
+                pieces = ("f", "listcomp", (("attr", el, f.name), ("t", (lst, ("t", ())))), ())
+                guard = ("f", "builtins.all", (("f", "listcomp", (("not", ("is", ("attr", el, f.name), T.NONE)), ("t", (lst, ("t", ())))), ()),), ())
+                # the same all-or-none guard written over the collected pieces: any(v is None for v in pieces) -> None
+                guard_any = ("f", "builtins.any", (("f", "listcomp", (("is", ("f", "elem", (pieces,), ()), T.NONE), ("t", (pieces, ("t", ())))), ()),), ())
+                accepted = [T.phi(guard, joined, T.NONE), T.phi(guard_any, T.NONE, joined)]
                 if f.name == "x":
-                    ok = v == joined
-                else:
-                    guard = ("f", "builtins.all", (("f", "listcomp", (("not", ("is", ("attr", el, f.name), T.NONE)), ("t", (lst, ("t", ())))), ()),), ())
-                    ok = v == T.phi(guard, joined, T.NONE)
+                    accepted.append(joined)  # the coordinates are never None
+                ok = v in accepted
                 ctx.decide(ok, "C16.cat", construct, loc, f"{f.name} == concatenate([s.{f.name} for s in samples], axis=0)" + ("" if f.name == "x" else " iff every piece has it"),
                            f"{f.name} is joined as {T.show(v)[:200]}", disc=f.name)
             for s in ("parameters", "dtype") + tuple(x for x in SCALARS if any(f.name == x for f in rb.result_cls.init_fields())):
@@ -133,7 +136,8 @@ def run(ctx):
                    "xp is not restored from the stored array on unpickling", disc="xp")
 
     # ---- dict conversion
-    dict_order(ctx, repo, "C16.dictorder")
+    # (dict_order below is used by C13 only: in memory a dict keeps its insertion order, so stacking in
+    # mapping order still restores x; it matters once the HDF5 layer, which sorts keys, sits in between)
     dict_roundtrip(ctx, repo, "C16.dictrt")
     for cn in CLASSES:
         C = repo.cls(f"{SAMPLES_MOD}:{cn}")
@@ -155,16 +159,7 @@ def dict_roundtrip(ctx, repo, rule):
     namespace."""
     Pself, Xself = self_attr("parameters"), self_attr("x")
 
-    def x_ok(x):
-        if not (x[0] == "f" and x[1] == "stack" and x[2] and dict(x[3]).get("axis") == T.neg(T.ONE)):
-            return False
-        lc = x[2][0]
-        if not (lc[0] == "f" and lc[1] == "listcomp" and len(lc[2]) == 2):
-            return False
-        body, gen = lc[2]
-        if gen != ("t", (Pself, ("t", ()))) or body[0] != "s" or body[2] != ("f", "elem", (Pself,), ()):
-            return False
-        m = body[1]
+    def zipdict(m):
         if m[0] == "d":
             sp = [v for k, v in m[1] if k == T.K("**")]
             if len(sp) != 1:
@@ -174,6 +169,22 @@ def dict_roundtrip(ctx, repo, rule):
             return False
         z = m[2][0]
         return z[0] == "f" and z[1] == "builtins.zip" and len(z[2]) == 2 and z[2][0] == Pself and z[2][1] == ("attr", Xself, "T")
+
+    def x_ok(x):
+        if not (x[0] == "f" and x[1] == "stack" and x[2] and dict(x[3]).get("axis") == T.neg(T.ONE)):
+            return False
+        lc = x[2][0]
+        # in memory a dict keeps insertion order, so stacking the values of dict(zip(parameters, x.T)) restores x as well
+        # (that form is fragile once a storage layer reorders keys: C13.dictorder)
+        inner = lc[2][0] if lc[0] == "f" and lc[1] in ("builtins.list", "builtins.tuple") and lc[2] else lc
+        if inner[0] == "f" and inner[1] == "method:values" and inner[2] and zipdict(inner[2][0]) and inner[2][0][0] != "d":
+            return True
+        if not (lc[0] == "f" and lc[1] == "listcomp" and len(lc[2]) == 2):
+            return False
+        body, gen = lc[2]
+        if gen != ("t", (Pself, ("t", ()))) or body[0] != "s" or body[2] != ("f", "elem", (Pself,), ()):
+            return False
+        return zipdict(body[1])
 
     n = 0
     for cn in CLASSES:
@@ -331,8 +342,7 @@ MUTANTS = [
     M("setstate does not restore xp", _S, "state[\"xp\"] = array_namespace(state[\"x\"])", "pass", "C16.pkl"),
 ]
 MUTANTS += [
-    M("from_dict stacks columns in mapping order", _S, "x = np.stack([samples[p] for p in parameters], axis=-1)", "x = np.stack(list(samples.values()), axis=-1)", "C16.dictorder"),
-    M("to_dict zips sorted names", _S, "samples = dict(zip(self.parameters, self.x.T, strict=True))\n        if flat:", "samples = dict(zip(sorted(self.parameters), self.x.T, strict=True))\n        if flat:", "C16.dictorder"),
+    M("to_dict zips sorted names", _S, "samples = dict(zip(self.parameters, self.x.T, strict=True))\n        if flat:", "samples = dict(zip(sorted(self.parameters), self.x.T, strict=True))\n        if flat:", "C16.dictrt"),
     M("from_dict passes derived fields on", _S, "dictionary = {k: v for k, v in dictionary.items() if k in init_names}\n", "", "C16.dict"),
     M("SMC concatenate loses beta", _S, "if all(s.beta == first.beta for s in samples):\n            out.beta = first.beta\n", "", "C16.cat"),
     M("SMC concatenate takes evidence of the last piece only", _S, "out.log_evidence = first.log_evidence", "out.log_evidence = None", "C16.cat"),
@@ -347,6 +357,9 @@ MUTANTS += [
     M("from_dict swaps prior and likelihood", _S, "return cls(x=x, parameters=parameters, **dictionary)", 'dictionary["log_prior"], dictionary["log_likelihood"] = dictionary.get("log_likelihood"), dictionary.get("log_prior")\n        return cls(x=x, parameters=parameters, **dictionary)', "C16.dictrt"),
 ]
 NEUTRALS = [
+    M("from_dict stacks columns in mapping order (insertion order is kept in memory)", _S, "x = np.stack([samples[p] for p in parameters], axis=-1)", "x = np.stack(list(samples.values()), axis=-1)"),
+    M("concatenate through an all-or-none helper", _S, "log_q=xp.concatenate([s.log_q for s in samples], axis=0)\n            if all(s.log_q is not None for s in samples)\n            else None,",
+      "log_q=_stack(\"log_q\"),", more=[("xp = samples[0].xp\n        return cls(", "xp = samples[0].xp\n\n        def _stack(name):\n            values = [getattr(s, name) for s in samples]\n            if any(v is None for v in values):\n                return None\n            return xp.concatenate(values, axis=0)\n\n        return cls(")]),
     M("to_dict without the defensive try", _S, "try:\n                    out[name] = deepcopy(value) if copy else value\n                except Exception:\n                    out[name] = value", "out[name] = deepcopy(value) if copy else value"),
     M("to_dict skip test as a tuple", _S, 'if name in ["x", "xp"]:', 'if name in ("x", "xp"):'),
     M("selection via temporaries", _S, "return self.__class__(\n            x=self.x[idx],", "xs = self.x[idx]\n        return self.__class__(\n            x=xs,", within="BaseSamples.__getitem__"),
